@@ -119,6 +119,56 @@ theorem d30_witness :
       = .ok ⟨⟨1, 537582715000000000⟩, .UTC⟩ := by
   constructor <;> decide +kernel
 
+/-! ### second = 60 — PARTIAL on D9b (UTC)
+
+  Full statement: a text whose second is 60 and whose fields minus the written offset are 23:59 of a
+  leap-second day denotes, in UTC, the instant INSIDE the inserted second (one second after 23:59:59.f), and
+  must parse to it; any other `:60` must be an error.  The library's UTC count has no value inside an
+  inserted second (recorded finding D9b): the parser reads the label as 23:59:59.f.  Proved: exactly which
+  `:60` texts are accepted (after fix 582282e / D38: the label is checked once the offset is removed) and
+  which epoch they give; decided: that epoch is NOT the denoted instant in UTC. -/
+
+/-- SECOND = 60, every form, offset and scale: accepted iff `Spec.leapLabelOwn`; the epoch is canonical, in
+    the scale the text names, with the count of 23:59:59.f of that minute (for the eight scales without leap
+    seconds this is what C08 demands of the constructors; for UTC it is one second before the instant denoted) -/
+theorem second60_partial (f : Form) (y mo d h mi : Int) (nd : Nat) (frac : Int) (neg : Bool) (oh om : Int) (ts : TS)
+    (hg : inGrammar60 ⟨y, mo, d⟩ h mi nd frac oh om = true) :
+    ∃ r ts', ts'.name = f.scaleOf ts.name ∧ r.Canon ∧
+      r.val = lastLabelNs ⟨y, mo, d⟩ h mi (offsetMin f neg oh om) nd frac - refOffsetNs ts'.name ∧
+      fromGregorianStrIdx (renderText f ⟨y, mo, d⟩ h mi 60 nd frac neg oh om ts.name) =
+        (if leapLabelOwn iersLeapDates ⟨y, mo, d⟩ h mi (offsetMin f neg oh om) = true then .ok ⟨r, ts'⟩ else .err) ∧
+      ∀ dur, epochFromStrWith dur (renderText f ⟨y, mo, d⟩ h mi 60 nd frac neg oh om ts.name) =
+        (if leapLabelOwn iersLeapDates ⟨y, mo, d⟩ h mi (offsetMin f neg oh om) = true then .ok ⟨r, ts'⟩ else .err) :=
+  second60_text f y mo d h mi nd frac neg oh om ts hg
+
+example : inGrammar60 ⟨2016, 12, 31⟩ 23 59 1 5 0 0 = true ∧
+    leapLabelOwn iersLeapDates ⟨2016, 12, 31⟩ 23 59 (offsetMin .Z false 0 0) = true := by decide
+
+/-- D9b for C10 (counterexample of the full statement): `2016-12-31T23:59:60Z` and `2016-12-31T23:59:59Z`
+    denote instants one second apart (`Spec.denotedLeapInstant` vs `Spec.utcToTai` of the count) and parse to
+    the SAME epoch; D38 (repaired): with an offset the same label is accepted, the local look-alike is not -/
+theorem d9b_second60_counterexample :
+    fromGregorianStrIdx (renderText .Z ⟨2016, 12, 31⟩ 23 59 60 0 0 false 0 0 "UTC") =
+      fromGregorianStrIdx (renderText .Z ⟨2016, 12, 31⟩ 23 59 59 0 0 false 0 0 "UTC") ∧
+    fromGregorianStrIdx (renderText .Z ⟨2016, 12, 31⟩ 23 59 60 0 0 false 0 0 "UTC") = .ok ⟨⟨1, 536457599000000000⟩, .UTC⟩ ∧
+    denotedLeapInstant (Gen.IERS_TEXT.map (fun e => (e.1, e.2.1))) ⟨2016, 12, 31⟩ 23 59 0 0 0 ≠
+      utcToTai (Gen.IERS_TEXT.map (fun e => (e.1, e.2.1))) (valP 1 536457599000000000) ∧
+    fromGregorianStrIdx (renderText .O ⟨2017, 1, 1⟩ 9 59 60 0 0 false 10 0 "UTC") = .ok ⟨⟨1, 536457599000000000⟩, .UTC⟩ ∧
+    fromGregorianStrIdx (renderText .O ⟨2016, 12, 31⟩ 23 59 60 0 0 false 10 0 "UTC") = .err := by
+  decide +kernel
+
+/-! ### the formatter models used here are the ones of C09 / C19 -/
+
+/-- `Txt.displayEpoch` (Display as this property's model writes it) IS `Cal.display` (the C09 model) -/
+theorem display_models_agree (d : Dur) (ts : TS) : displayEpoch d ts = Cal.display d ts :=
+  displayEpoch_eq_display d ts
+
+/-- `Txt.isoFormatterOutput` IS the general formatter model of C19 applied to the generated constant ISO8601 -/
+theorem iso_formatter_models_agree (O : Efmt.Oracles) (f : Efmt.Format)
+    (hf : Efmt.Format.ofGen Gen.EFMT_ISO8601 = some f) (d : Dur) (ts : TS) :
+    Efmt.formatterOutput O f ⟨d, ts⟩ none = isoFormatterOutput d ts :=
+  isoFormatterOutput_eq_formatter O f hf d ts
+
 /-! ### the numeric forms `JD x SCALE`, `MJD x SCALE`, `SEC x SCALE` — PARTIAL
 
   Full statement (not proved in the kernel): for the accepted (prefix, scale) pairs and every decimal
@@ -126,37 +176,49 @@ theorem d30_witness :
   binary64 of that magnitude of the instant `x` denotes.  The value is computed with `f64` arithmetic
   (`lexical_core::parse::<f64>`, a subtraction, `Unit::Day * f64`), which the model evaluates with
   hardware doubles in the driver (bit-for-bit equal to the implementation on every generated case)
-  and which `Spec.withinResolution` judges in exact integer arithmetic.  What IS proved: which
-  (prefix, scale) pairs are accepted, which scale the result carries, and that the other pairs are
-  errors — for any value of the float-valued part. -/
+  and which `Spec.withinResolution` judges in exact integer arithmetic.  What IS proved: every
+  (prefix, scale) pair is accepted with the written scale, and the numeral and scale handed on are the
+  ones written — for any value of the float-valued part. -/
 
-/-- accepted pairs: JD ∈ {TAI, UTC, ET, TDB} (the result carries the written scale: since the repair of
-    `from_jde_et` / `from_jde_tdb` the Julian date is counted in ET / TDB themselves),
-    MJD ∈ {TAI, UTC, GPST, GST, BDT}, SEC in every scale; anything else is an error, never another instant -/
+/-- every (prefix, scale) pair is accepted (since fix bfd663d / D44) and the result carries the written scale:
+    JD and MJD call `from_jde_in_time_scale` / `from_mjd_in_time_scale` for whatever scale is written, SEC
+    counts from the scale's own reference; never an error, never another scale — for any finite value -/
 theorem numeric_forms_partial (bits : Nat) (dur : TS → Dur) (hf : finiteBits bits = true) :
-    (∀ ts, numericEpoch 0 ts bits dur =
-        if ts = .ET ∨ ts = .TDB ∨ ts = .TAI ∨ ts = .UTC then .ok ⟨dur ts, ts⟩ else .err) ∧
-    (∀ ts, numericEpoch 1 ts bits dur =
-        if ts = .TAI ∨ ts = .UTC ∨ ts = .GPST ∨ ts = .BDT ∨ ts = .GST then .ok ⟨dur ts, ts⟩ else .err) ∧
-    (∀ ts, numericEpoch 2 ts bits dur = .ok ⟨dur ts, ts⟩) := by
-  refine ⟨fun ts => ?_, fun ts => ?_, fun ts => ?_⟩ <;> unfold numericEpoch <;> simp only [hf] <;> cases ts <;> simp
+    ∀ fmt ts, numericEpoch fmt ts bits dur = .ok ⟨dur ts, ts⟩ := by
+  intro fmt ts
+  unfold numericEpoch
+  simp only [hf, Bool.true_eq_false, if_false]
+  split
+  · rfl
+  · split <;> rfl
+
+/-- D44 (repaired by bfd663d) as decided facts: the ten required pairs that were errors are read, with the
+    written scale and the numeral written (any float-valued tail `dur`) -/
+theorem d44_witness (dur : Nat → Nat → TS → Dur) :
+    epochFromStrWith dur (Cal.strCodes "JD 2451545.0 TT") = .ok ⟨dur 0 0x4142b42c80000000 .TT, .TT⟩ ∧
+    epochFromStrWith dur (Cal.strCodes "JD 2451545.0 GST") = .ok ⟨dur 0 0x4142b42c80000000 .GST, .GST⟩ ∧
+    epochFromStrWith dur (Cal.strCodes "MJD 51544.5 TT") = .ok ⟨dur 1 0x40e92b1000000000 .TT, .TT⟩ ∧
+    epochFromStrWith dur (Cal.strCodes "MJD 51544.5 GPST") = .ok ⟨dur 1 0x40e92b1000000000 .GPST, .GPST⟩ ∧
+    epochFromStrWith dur (Cal.strCodes "SEC 5 GPST") = .ok ⟨dur 2 0x4014000000000000 .GPST, .GPST⟩ ∧
+    epochFromStrWith dur (Cal.strCodes "SEC 5 QZSST") = .ok ⟨dur 2 0x4014000000000000 .QZSST, .QZSST⟩ := by
+  refine ⟨?_, ?_, ?_, ?_, ?_, ?_⟩ <;> rfl
 
 /-- NUMERIC FORMS, the text-level part (proved for every numeral text): in `PREFIX␣x␣SCALE` — `x` any
-    non-empty ASCII text without blanks, `SCALE` any spelling of at most three letters accepted by
-    `TimeScale::from_str` (UTC TT TAI TDB ET GPS GST GAL BDT BDS) — `Epoch::from_str` hands exactly `x` to
-    `lexical_core::parse::<f64>`, rejects a non-finite or malformed numeral, and calls the initializer of
-    the written prefix with the written scale (`numericEpoch`, table above).  (`GPST`, `QZSST`, `QZSS` are
-    not reachable: the code reads three bytes.) -/
+    non-empty ASCII text without blanks, `SCALE` ANY of the thirteen spellings accepted by
+    `TimeScale::from_str` (the nine Display names and GPS GAL BDS QZSS; the suffix search over the last 5, 4,
+    3 bytes finds it) — `Epoch::from_str` hands exactly `x` to `lexical_core::parse::<f64>`, rejects a
+    non-finite or malformed numeral, and calls the initializer of the written prefix with the written scale
+    (`numericEpoch`, theorem above) -/
 theorem numeric_forms_read_what_is_written (dur : Nat → Nat → TS → Dur) (pfx : List Nat) (start fmt : Nat)
     (hp : (pfx = [74, 68] ∧ start = 2 ∧ fmt = 0) ∨ (pfx = [77, 74, 68] ∧ start = 3 ∧ fmt = 1) ∨
           (pfx = [83, 69, 67] ∧ start = 3 ∧ fmt = 2))
-    (x sfx : List Nat) (ts : TS) (hsfx : (sfx, ts) ∈ Gen.TIMESCALE_SPELLINGS) (hl : sfx.length ≤ 3)
+    (x sfx : List Nat) (ts : TS) (hsfx : (sfx, ts) ∈ Gen.TIMESCALE_SPELLINGS)
     (hxa : isAscii x = true) (hxne : x ≠ []) (hxw : ∀ c ∈ x, isWhitespace c = false) :
     epochFromStrWith dur (pfx ++ 32 :: (x ++ 32 :: sfx)) =
       match lexF64 x with
       | some bits => if finiteBits bits = true then numericEpoch fmt ts bits (dur fmt bits) else .err
       | none => .err :=
-  numeric_text_reads dur pfx start fmt hp x sfx ts hsfx hl hxa hxne hxw
+  numeric_text_reads dur pfx start fmt hp x sfx ts hsfx hxa hxne hxw
 
 /-- the texts of the theorem above are the specification's `renderNumeric` with one blank -/
 example (x : List Nat) : renderNumeric "MJD" x 1 "GPS" = [77, 74, 68] ++ 32 :: (x ++ 32 :: [71, 80, 83]) := by
